@@ -77,9 +77,8 @@ class SDLParser(gqlfront.Parser):
             if self.is_p("&"):
                 self.adv()
             out.append(self.name()["value"])
-            while self.is_p("&") or self.t.kind == "name":
-                if self.is_p("&"):
-                    self.adv()
+            while self.is_p("&"):
+                self.adv()
                 out.append(self.name()["value"])
         return out
 
